@@ -1,9 +1,12 @@
 #!/bin/bash
 # tools/seed_run.sh <seed-id> <prop> [tier] : apply a seeded change to /repo, run the check, undo.
+# The evidence file of the property is saved and restored: evidence must describe the unchanged tree.
 ID=$1; P=$2; T=${3:-quick}
 cd /verif
 git -C /repo diff --quiet || { echo "/repo not clean"; exit 2; }
+[ -f evidence/$P.json ] && cp evidence/$P.json /tmp/evidence-$P.saved
 git -C /repo apply /verif/seeded/$ID/patch.diff || exit 2
 ./check $P $T > /tmp/seedrun-$ID-$P.log 2>&1; RC=$?
 git -C /repo checkout -- .
+[ -f /tmp/evidence-$P.saved ] && mv /tmp/evidence-$P.saved evidence/$P.json
 echo "$ID vs $P $T: rc=$RC $(grep -E 'VIOLATION|^C[0-9]+ ' /tmp/seedrun-$ID-$P.log | tr '\n' ' ')"
